@@ -189,6 +189,12 @@ GRIDS = [1, 2, 3]
 # the last interval covers every bounds entirely (added after seeded defect C20_6, a whole-plane shortcut in find(), was missed)
 INTERVALS = [(-5.0, -3.5), (-3.0, -0.5), (-0.7, 0.0), (-0.7, 2.0), (-0.5, 0.5), (0.5, 1.5), (1.5, 3.0), (2.0, 8.5), (5.5, 9.0), (-5.0, 9.0)]
 QUERIES = [(ax[0], ay[0], ax[1], ay[1]) for ax in INTERVALS for ay in INTERVALS]
+# degenerate query boxes: probe lines and probe points (added after seeded defect C20_12, an "empty search area" shortcut, was missed).
+# Under the index's own overlap predicate a zero-width query still meets every object whose interior it crosses.
+DEGEN = [(1.0, 1.0), (-2.0, -2.0), (5.5, 5.5), (2.0, 2.0)]
+SOME = [(-0.7, 2.0), (0.5, 1.5), (2.0, 8.5), (-5.0, 9.0)]
+QUERIES += [(ax[0], ay[0], ax[1], ay[1]) for ax in DEGEN for ay in DEGEN]
+QUERIES += [(ax[0], ay[0], ax[1], ay[1]) for ax in DEGEN for ay in SOME] + [(ax[0], ay[0], ax[1], ay[1]) for ax in SOME for ay in DEGEN]
 # pairs of queries whose iterators are consumed interleaved (added after seeded defect C20_7 was missed)
 INTERLEAVED = [((-5.0, -5.0, 9.0, 9.0), (-5.0, -5.0, 9.0, 9.0)), ((-5.0, -5.0, 9.0, 9.0), (0.5, 0.5, 1.5, 1.5)), ((-0.7, -0.7, 2.0, 2.0), (-5.0, -5.0, 9.0, 9.0))]
 
@@ -206,11 +212,15 @@ def build_plane(bounds, grid, hist):
         try:
             if op == "add":
                 pl.add(objs[n])
+            elif op == "extg":  # extend() with a one-shot iterator (added after seeded defect C20_11 was missed)
+                pl.extend(o for o in [objs[n]])
+            elif op == "extl":
+                pl.extend([objs[n]])
             else:
                 pl.remove(objs[n])
         except Exception as e:  # noqa
             pl._verif_errors.append(f"{op} {n}: {type(e).__name__}")
-        if op == "add":
+        if op != "remove":
             live.append(n)
         else:
             live.remove(n)
@@ -284,6 +294,8 @@ def run_index(bounds, grid, first, depth, st):
         for n in names:
             if n not in live:
                 yield ("add", n)
+                yield ("extg", n)
+                yield ("extl", n)
         for n in live:
             yield ("remove", n)
 
